@@ -19,6 +19,7 @@ func init() {
 			c.run("C18-R6", "WHO-CALLS: the timeout sentinel travels up the read chain unwrapped", c18Sentinel)
 			c.run("C18-R5", "GUARD-DOM: statistics suspended after a pause never skip releasing the probing encoder", c18R5)
 			c.run("C18-S1", "shared with C11-R10: between two acks the probing encoder is released or the probing is seen to be over (also for acks read across a pause)", c11BufInit)
+			c.run("C18-S2", "shared with C11-R2: a timer installed on resume is used once (a read continued after a pause still ends when the peer stays silent)", c11R2)
 		})
 }
 
